@@ -905,6 +905,23 @@ func genAV1C08(x *Ctx) {
 			})
 		}
 	}
+	// a FRAGMENTED first OBU whose last fragment nearly fills a packet, followed by a small OBU that
+	// shares that packet, for MTUs where the fragment's length field takes two bytes (>= 128):
+	// total length = mult*MTU + d.  (seed C08-4: room computed without the aggregation-header byte)
+	for _, mtu := range []int{130, 131, 132, 200, 255, 256, 257, 300, 1200} {
+		for mult := 1; mult <= 3; mult++ {
+			for d := -9; d <= 3; d++ {
+				mtu, mult, d := mtu, mult, d
+				x.Case(func(c *Case) {
+					L := mult*mtu + d
+					first := av1Obu{typ: 6, hasSize: true, payload: c.R.Bytes(L - 1)}
+					second := av1Obu{typ: 6, hasSize: c.R.Bool(), payload: c.R.Bytes(c.R.Range(0, 3))}
+					c.Tag("fragment-fills-packet")
+					run(c, []PayCall{{uint16(mtu), av1Serialise([]av1Obu{first, second})}})
+				})
+			}
+		}
+	}
 	for i, n := 0, x.N(9000, 500000); i < n; i++ {
 		x.Case(func(c *Case) {
 			k := c.R.Range(1, 4)
@@ -1041,6 +1058,34 @@ func av1Stream(r *Rand) [][]byte {
 	return ps
 }
 
+
+// av1LongLebPayloads: payloads whose element length field is an over-long / over-wide LEB128
+// (1–10 bytes, continuation bytes ff or 80, last byte 00 / 01 / 7f), behind every aggregation
+// header shape that has a length field, followed by 0–24 bytes.  A 10-byte field with a set bit in
+// its last byte overflows 63 bits: the length arithmetic of the parsers must still reject it
+// instead of slicing out of range (seed C09-6).
+func av1LongLebPayloads(r *Rand) [][]byte {
+	var out [][]byte
+	for _, hdr := range []byte{0x00, 0x20, 0x30, 0x40, 0x80, 0xC0, 0x08, 0x28} {
+		for k := 1; k <= 10; k++ {
+			for _, cont := range []byte{0xff, 0x80} {
+				for _, last := range []byte{0x00, 0x01, 0x7f} {
+					p := []byte{hdr}
+					for i := 0; i < k-1; i++ {
+						p = append(p, cont)
+					}
+					p = append(p, last)
+					tail := r.Pick(0, 1, 2, 12, 24)
+					p = append(p, 0x30)
+					p = append(p, r.Bytes(tail)...)
+					out = append(out, p)
+				}
+			}
+		}
+	}
+	return out
+}
+
 func genAV1C09(x *Ctx) {
 	// all strings of at most 2 bytes (3 in the thorough tier), in runs fed to one receiver
 	var all [][]byte
@@ -1071,6 +1116,14 @@ func genAV1C09(x *Ctx) {
 			{0x50, 0x32, 0x02, 0xaa}, {0x90, 0xbb}, {0x50, 0x36, 0x08, 0x02, 0xaa}, {0x90, 0xbb},
 			{0x10, 0x12, 0x00}, {0x20, 0x01, 0x30, 0x12}, {0x00, 0x01, 0x30, 0x01, 0x42}, {0x30, 0x01, 0x30, 0x01, 0x30}})
 	})
+	for g := 0; g < 15; g++ {
+		g := g
+		x.Case(func(c *Case) {
+			c.Tag("long-leb128-length-field")
+			ps := av1LongLebPayloads(c.R)
+			av1DepHist(c, ps[g*32:(g+1)*32])
+		})
+	}
 	const run = 32
 	for i := 0; i < len(all); i += run {
 		j := i + run
@@ -1216,6 +1269,14 @@ func genAV1C09Pkt(x *Ctx) {
 		c.Tag("literal")
 		av1PktHist(c, true, [][]byte{nil, {}, {0x10}, {0x10, 0x30}, {0x20, 0x01, 0x0a, 0x30, 0x01}})
 	})
+	for g := 0; g < 15; g++ {
+		g := g
+		x.Case(func(c *Case) {
+			c.Tag("long-leb128-length-field")
+			ps := av1LongLebPayloads(c.R)
+			av1PktHist(c, g%2 == 1, ps[g*32:(g+1)*32])
+		})
+	}
 	const run = 32
 	for i := 0; i < len(all); i += run {
 		j := i + run
